@@ -298,6 +298,28 @@ def rule_seq(env, shared):
                 r["name"], fmt(tc)[:200])))
             continue
         if use != "skip count" and not verdict["clamped"]:
+            # guarded instead of clamped: every call of into_seq_iter that is given the counter value is made under
+            # `counter <= LEN` (`match self.pending() { Some((first, _)) => split(first), None => Vec::new() }`)
+            sites = []
+            for bi, t_, c_ in b.calls():
+                if b.blocks[bi]["cleanup"]:
+                    continue
+                def plain(x):
+                    x = unref(x)
+                    while x[0] == "call" and x[1] == "conv" and x[2]:
+                        x = unref(x[2][0])
+                    return m.canon(x)
+                if any(plain(x) == ldc for x in (ev.operand(ctx, a) for a in t_["args"])):
+                    c0 = b.callee(bi)
+                    if c0 is not None and not c0.indirect and (c0.key.endswith("AtomicCounter::current") or
+                                                               c0.name in ("then", "then_some", "map", "branch")):
+                        continue
+                    fs_ = [tuple(m.canon(x) if isinstance(x, tuple) else x for x in f) for f in block_facts(ev, ctx, bi)]
+                    p_ = CProver(fs_, ev, ctx)
+                    sites.append(p_.le(ldc, Lc) or p_.le(ldc, Lc_val))
+            if sites and all(sites):
+                verdict["clamped"] = True
+        if use != "skip count" and not verdict["clamped"]:
             out.append(Ob("SEQ", key, "viol", loc,
                           "into_seq_iter of %s uses the raw position counter as %s; after overshooting pulls or skip_to_end "
                           "the counter exceeds the length and the remainder is malformed / the split panics — it must be "
